@@ -172,7 +172,8 @@ func (g *gen) varintVal() uint32 {
 func (g *gen) payload() []byte {
 	if g.big && g.chance(6) {
 		sizes := []int{120, 127, 128, 200, 16370, 16384, 20000, 70000}
-		return g.bin(sizes[g.rng.Intn(len(sizes))], sizes[g.rng.Intn(len(sizes))]+0)
+		n := sizes[g.rng.Intn(len(sizes))]
+		return g.bin(n, n)
 	}
 	if g.chance(15) {
 		return nil
